@@ -26,6 +26,25 @@ SHARD_TIMEOUT = {"quick": 900, "thorough": 3600}
 GETTERS = ("get_full_grid_as_array", "get_total_volumes", "get_full_adjacency", "get_full_borders", "get_full_distances")
 
 
+def expected_size(b, o, t):
+    """n_b*n_o*n_t read from the three strings by the harness itself: the number in a grid name (none = a single point), the radial text
+    through the exact-rational reader of C16 (None when that reader does not understand it or the range length is float-ambiguous)"""
+    import re
+    from vlib.props import c16
+    sizes = []
+    for name in (b, o):
+        nums = re.findall(r"(?<![A-Za-z0-9])\d+(?![A-Za-z0-9])", str(name).replace("_", " "))
+        if len(nums) > 1:
+            return None
+        sizes.append(int(nums[0]) if nums else 1)
+        if "zero" in str(name):
+            sizes[-1] = 1
+    got = c16.expected_array(t) if isinstance(t, str) else None
+    if got is None or got[2]:
+        return None
+    return sizes[0] * sizes[1] * len(set(got[0]))
+
+
 def classify(exc):
     name = type(exc).__name__
     msg = str(exc)
@@ -72,6 +91,13 @@ def make_getter_observer(gname):
                     REC.crashed(mon, exc, mechanism=classify(exc))
                 return
             n = self.get_b_N() * self.get_o_N() * self.get_t_N()
+            want = expected_size(self.b_grid_name, self.o_grid_name, self.t_grid_name)
+            if want is not None and want != n:
+                # the sizes the object believes in must be those of the specification it was built from (read independently of the package)
+                REC.fail(mon, {"getter": gname, "problem": "the grid's own n_b*n_o*n_t differs from the specification",
+                               "own": [self.get_b_N(), self.get_o_N(), self.get_t_N()], "specification_n": want,
+                               "b": self.b_grid_name, "o": self.o_grid_name, "t": self.t_grid_name})
+                return
             if gname == "get_full_grid_as_array":
                 ok = np.asarray(result).shape == (n, 7)
             elif gname == "get_total_volumes":
@@ -112,11 +138,18 @@ def drive(FullGrid, b, o, t, cart, factor=2, variant=0):
         fg = FullGrid(b, o, t, factor=factor, position_grid_cartesian=flag)
     except Exception:
         return
-    for g in order + (order[::-1] if variant % 3 == 1 else []):
+    calls = order + (order[::-1] if variant % 3 == 1 else [])
+    if variant % 2:
+        # the position-level getters are reachable on the full grid too (attribute forwarding): asked in between, they are history only
+        extra = ["get_distances_of_position_grid", "get_borders_of_position_grid", "get_adjacency_of_position_grid", "get_all_position_volumes"]
+        rnd = random.Random(variant + 1)
+        for g in rnd.sample(extra, rnd.randint(1, 4)):
+            calls.insert(rnd.randrange(len(calls) + 1), g)
+    for g in calls:
         try:
             getattr(fg, g)()
         except Exception:
-            pass  # judged by the outcome monitor; continue with the next getter
+            pass  # judged by the outcome monitor (the full getters); continue with the next getter
     try:
         if fg.get_b_N() * fg.get_o_N() * fg.get_t_N() >= 2:
             REC.nontrivial_case((b, o, t, cart, factor))
